@@ -101,29 +101,41 @@ def main(tier_):
             ce_ingredients.append(ing)
     # ---------------- (G)+(V) boundary sweep on the real library
     all_cases = []
+    # one batch of unattacked, traced baseline runs tells how many relevant syscalls each call makes
+    bl_cases, bl_index = [], []
     for tname, nodes in race.RACE_TREES.items():
-        for path in race.LOOKUP_PATHS[tname]:
-            calls = race.lookup_calls(path)
-            for bname, feat in (("emulated", {"openat2": False}), ("kernel", {"openat2": True})):
-                counts, bres, bcases = race.baseline_counts(nodes, calls, feat)
-                for call, n_rel, br in zip(calls, counts, bres):
-                    focus = set()
-                    for e in br.get("events", []):
-                        if e.get("ev") == "sys" and e.get("rel"):
-                            focus.add(e.get("dfd_id"))
-                            if e.get("r_id"):
-                                focus.add(e.get("r_id"))
-                    acts = race.repertoire(nodes, focus=focus)
-                    stats["baseline_relevant_syscalls_" + bname] += n_rel
-                    all_cases += race.make_sweep(tname, nodes, call, feat, n_rel, acts, pairs=not quick, rnd=rnd, max_pairs=None if not quick else 0)
+        paths = race.LOOKUP_PATHS[tname]
+        for path in paths:
+            for call in race.lookup_calls(path):
+                for bname, feat in (("emulated", {"openat2": False}), ("kernel", {"openat2": True})):
+                    bl_cases.append(dict(id="base-%d" % len(bl_cases), tree=nodes, feat=feat, trace=True, raw=False, calls=[call]))
+                    bl_index.append((tname, nodes, call, bname, feat))
+    order = sorted(range(len(bl_cases)), key=lambda i: json.dumps(bl_cases[i]["feat"]))
+    bl_res = run_pv([bl_cases[i] for i in order], jobs=12, tag="C02b")
+    for i, br in zip(order, bl_res):
+        tname, nodes, call, bname, feat = bl_index[i]
+        ks = [e.get("k", -1) for e in br.get("events", []) if e.get("ev") == "sys" and e.get("rel")]
+        n_rel = max(ks) + 1 if ks else 0
+        focus = set()
+        for e in br.get("events", []):
+            if e.get("ev") == "sys" and e.get("rel"):
+                focus.add(e.get("dfd_id"))
+                if e.get("r_id"):
+                    focus.add(e.get("r_id"))
+        acts = race.repertoire(nodes, focus=focus)
+        stats["baseline_relevant_syscalls_" + bname] += n_rel
+        all_cases += race.make_sweep(tname, nodes, call, feat, n_rel, acts, pairs=not quick, rnd=rnd, max_pairs=None if not quick else 0)
     stats["sweep_space"] = len(all_cases)
     if quick:
         # every placement of the priority actions (moving a directory of the walk out of the root,
         # exchanging it with a staged directory / escaping link); a seeded sample of the rest
-        prio = [c for c in all_cases if c["meta"].get("prio")]
-        rest = [c for c in all_cases if not c["meta"].get("prio")]
+        prio = [c for c in all_cases if c["meta"].get("prio") and c["meta"]["acts"][0]["act"] == "rename"]
+        pid_ = {c["id"] for c in prio}
+        rest = [c for c in all_cases if c["id"] not in pid_]
         rnd.shuffle(rest)
-        all_cases = prio + rest[:1500]
+        rnd.shuffle(prio)
+        all_cases = prio[:3500] + rest[:1000]
+        stats["prio_space"] = len(prio)
     # keep shards homogeneous in feature set
     all_cases.sort(key=lambda c: json.dumps(c["feat"]))
     results = run_pv(all_cases, jobs=12, tag="C02")
